@@ -495,10 +495,15 @@ impl FixtureDatabase {
         // Check for @pytest.mark.parametrize with indirect=True on the function
         for decorator in decorator_list {
             let indirect_fixtures = decorators::extract_parametrize_indirect_fixtures(decorator);
-            for (fixture_name, range) in indirect_fixtures {
+            for (fixture_name, range, offset_in_literal) in indirect_fixtures {
                 let usage_line = self.get_line_from_offset(range.start().to_usize(), line_index);
-                let (start_char, end_char) =
+                let (mut start_char, mut end_char) =
                     self.string_content_columns(content, range, line_index);
+                // one literal listing several names: the range of this name only
+                if let Some(offset) = offset_in_literal {
+                    start_char += offset;
+                    end_char = start_char + fixture_name.len();
+                }
 
                 info!(
                     "Found parametrize indirect fixture usage: {} at {:?}:{}:{}",
